@@ -19,8 +19,10 @@ def nf(f, e, res, sign=1):
     """List of (sign, key) terms; position_distance(P, Q) is expanded to Q - P."""
     e = X.strip(e)
     k = e["k"]
-    if k in ("CXXConstructExpr", "CXXTemporaryObjectExpr", "CXXFunctionalCastExpr") and len(X.call_args(e)) == 1:
-        return nf(f, X.call_args(e)[0], res, sign)
+    if k in ("CXXConstructExpr", "CXXTemporaryObjectExpr", "CXXFunctionalCastExpr"):
+        real_args = [a for a in X.call_args(e) if a["k"] != "CXXDefaultArgExpr"]
+        if len(real_args) == 1:
+            return nf(f, real_args[0], res, sign)
     if k == "DeclRefExpr" and res and e.get("d") in res:
         return nf(f, res[e["d"]], res, sign)
     if k == "CallExpr" and e.get("cq") in ("colvarmodule::position_distance",):
@@ -131,12 +133,29 @@ def r1(F, rep):
                 if len(cs) == 4:
                     cs = cs[1:]
                 cond, then, els = cs[0], cs[1], cs[2] if len(cs) > 2 else None
-                if cond is None or not mentions_pbc(f, cond) or els is None:
+                if cond is None or not mentions_pbc(f, cond):
                     continue
-                # polarity: `!is_enabled(pbc)` -> then-branch is the plain one
                 neg = X.strip(cond)["k"] == "UnaryOperator" and X.strip(cond)["op"] == "!"
-                plain, pbc = (then, els) if neg else (els, then)
-                ep, eb = effects(f, plain, res), effects(f, pbc, res)
+                if els is None:
+                    # `if (pbc) { return A; } return B;` : the statement after the if is the other branch
+                    rets = [x for x in f.walk(then) if x["k"] == "ReturnStmt" and X.kids(x)]
+                    par = f.parent(node)
+                    nxt = None
+                    if par is not None and par["k"] == "CompoundStmt":
+                        sibs = [c for c in par["c"] if c is not None]
+                        i = [k for k, c in enumerate(sibs) if c is node]
+                        if i and i[0] + 1 < len(sibs) and sibs[i[0] + 1]["k"] == "ReturnStmt" and X.kids(sibs[i[0] + 1]):
+                            nxt = sibs[i[0] + 1]
+                    if len(rets) != 1 or nxt is None:
+                        continue
+                    a_then, a_next = X.kids(rets[0])[0], X.kids(nxt)[0]
+                    plain, pbc = (a_then, a_next) if neg else (a_next, a_then)
+                    ep = {"return": render(nf(f, plain, res))}
+                    eb = {"return": render(nf(f, pbc, res))}
+                else:
+                    # polarity: `!is_enabled(pbc)` -> then-branch is the plain one
+                    plain, pbc = (then, els) if neg else (els, then)
+                    ep, eb = effects(f, plain, res), effects(f, pbc, res)
             elif node["k"] == "ConditionalOperator":
                 cond, a, b = node["c"]
                 if not mentions_pbc(f, cond):
